@@ -25,6 +25,7 @@ pub struct Scenario {
     /// hostile source behaviour present (duplicates / exotic values): model rules do not apply
     pub has_dup: bool,
     pub has_exotic: bool,
+    pub has_nonfinite: bool,
     pub src_faults: FaultCounts,
     /// label of the special shape, if any ("deep128", "long10000")
     pub special: Option<String>,
@@ -59,6 +60,7 @@ impl Scenario {
             program_name: j.get("program_name")?.as_str()?.to_string(),
             has_dup: doc.has_dup_keys(),
             has_exotic: has_exotic(&doc),
+            has_nonfinite: has_nonfinite(&doc),
             doc,
             leaf_faults: j
                 .get("leaf_faults")?
@@ -77,9 +79,18 @@ impl Scenario {
     }
 }
 
-pub fn has_exotic(d: &Doc) -> bool {
+pub fn has_nonfinite(d: &Doc) -> bool {
     match d {
         Doc::Float(f) => !f.is_finite(),
+        Doc::Seq(v) => v.iter().any(has_nonfinite),
+        Doc::Map(m) => m.iter().any(|(_, v)| has_nonfinite(v)),
+        _ => false,
+    }
+}
+
+/// values whose semantics the reference interpreter does not model: NegativeInteger(n >= 0)
+pub fn has_exotic(d: &Doc) -> bool {
+    match d {
         Doc::Neg(n) => *n >= 0,
         Doc::Seq(v) => v.iter().any(has_exotic),
         Doc::Map(m) => m.iter().any(|(_, v)| has_exotic(v)),
@@ -117,6 +128,8 @@ fn or_cfg(a: &FaultCfg, b: &FaultCfg, on: &dyn Fn(bool, bool) -> bool) -> FaultC
         tag: on(a.tag, b.tag),
         dup: on(a.dup, b.dup),
         exotic: on(a.exotic, b.exotic),
+        nonfinite: on(a.nonfinite, b.nonfinite),
+        collide: on(a.collide, b.collide),
     }
 }
 
@@ -145,6 +158,8 @@ pub fn generate(
         tag: coin(&mut rng),
         dup: rng.chance(1, 3),
         exotic: rng.chance(1, 3),
+        nonfinite: rng.chance(1, 3),
+        collide: rng.chance(1, 2),
     };
     let mut cfg = or_cfg(&swarm, &profile.allowed, &|a, b| a && b);
     cfg = or_cfg(&cfg, &profile.forced, &|a, b| a || b);
@@ -193,6 +208,7 @@ pub fn generate(
     }
     let has_dup = doc.has_dup_keys();
     let has_exotic = has_exotic(&doc);
+    let has_nonfinite = has_nonfinite(&doc);
 
     // --- leaf and callback faults: chosen among what the reference interpreter says is reached --
     let mut leaf_faults: Vec<Path> = vec![];
@@ -239,6 +255,7 @@ pub fn generate(
         run_index,
         has_dup,
         has_exotic,
+        has_nonfinite,
         src_faults,
         special,
     }
